@@ -212,8 +212,17 @@ func VerifC03Cluster() {
 				break
 			}
 		}
-		i := verifrt.IntIn("id", 0, nIds-1)
-		kind := verifrt.Choose("write", 3)
+		var i, kind int
+		if verifrt.Bound("script", 0) == 1 {
+			// the scripted history insert a, insert b, remove a (then update b ...): a replica that
+			// misses the removal and is caught up by a non-empty snapshot must not keep a
+			scriptIds := []int{0, 1, 0, 1}
+			scriptKinds := []int{0, 0, 2, 1}
+			i, kind = scriptIds[step%4], scriptKinds[step%4]
+		} else {
+			i = verifrt.IntIn("id", 0, nIds-1)
+			kind = verifrt.Choose("write", 3)
+		}
 		vec := []float32{float32(10*step + i + 1)}
 		next := &verifModel{}
 		*next = *acked
